@@ -19,8 +19,13 @@ structure Inv (db : Db) : Prop where
   sorted : Sorted db
   wf : ∀ e ∈ db, ∃ k i, i < 16 ^ W ∧ e.1 = suffix k i
 
-/-- no other apparent key in the database extends `k ++ sep` (the guard of the contiguity theorem) -/
+/-- CONTIGUITY of `k` in `db` — the exact condition every scan loop for `k` needs: whatever entry sorts at or after
+the first possible entry of `k` and before an entry of `k` is itself an entry of `k`. -/
 def NoChild (k : Bytes) (db : Db) : Prop :=
+  ∀ x ∈ db, ∀ e2 ∈ db, ckeyIs k e2 = true → lexLt x.1 (suffix k 0) = false → lexLt x.1 e2.1 = true → ckeyIs k x = true
+
+/-- the simple sufficient condition: no other apparent key in the database extends `k ++ sep` -/
+def NoChildSyn (k : Bytes) (db : Db) : Prop :=
   ∀ e ∈ db, ∀ k' i, i < 16 ^ W → e.1 = suffix k' i → k' ≠ k → ¬ (k ++ [sepB]) <+: k'
 
 theorem inv_nil : Inv [] := ⟨sorted_nil, by simp⟩
@@ -83,11 +88,9 @@ theorem between_suffix {k k' : Bytes} {i i' j : Nat} (h1 : lexLt (suffix k' j) (
       have hmem : sepB ∈ hexFix W j := by rw [this]; simp
       exact sep_not_in_hex sepB_not_hex W j hmem
 
-/-- CONTIGUITY: under the guard, an entry of the database lying between two entries of `k`
-(more generally: at or above `suffix k 0` and below an entry of `k`) is an entry of `k` -/
-theorem contiguous {db : Db} (hinv : Inv db) {k : Bytes} (hnc : NoChild k db) {x e2 : Entry}
-    (hx : x ∈ db) (h2 : e2 ∈ db) (hk2 : ckeyIs k e2 = true)
-    (hlo : lexLt x.1 (suffix k 0) = false) (hhi : lexLt x.1 e2.1 = true) : ckeyIs k x = true := by
+/-- CONTIGUITY from the simple guard (DESIGN A.3) -/
+theorem noChild_of_syn {db : Db} (hinv : Inv db) {k : Bytes} (hnc : NoChildSyn k db) : NoChild k db := by
+  intro x hx e2 h2 hk2 hlo hhi
   obtain ⟨i2, hi2, he2⟩ := (ckeyIs_iff hinv h2 k).mp hk2
   obtain ⟨k', j, hj, hxk⟩ := hinv.wf x hx
   rw [hxk] at hlo hhi; rw [he2] at hhi
@@ -96,6 +99,11 @@ theorem contiguous {db : Db} (hinv : Inv db) {k : Bytes} (hnc : NoChild k db) {x
   · by_cases hkk : k' = k
     · subst hkk; exact (ckeyIs_iff hinv hx k').mpr ⟨j, hj, hxk⟩
     · exact absurd hpre (hnc x hx k' j hj hxk hkk)
+
+theorem contiguous {db : Db} (_hinv : Inv db) {k : Bytes} (hnc : NoChild k db) {x e2 : Entry}
+    (hx : x ∈ db) (h2 : e2 ∈ db) (hk2 : ckeyIs k e2 = true)
+    (hlo : lexLt x.1 (suffix k 0) = false) (hhi : lexLt x.1 e2.1 = true) : ckeyIs k x = true :=
+  hnc x hx e2 h2 hk2 hlo hhi
 
 /-! ## the scan lemma -/
 
